@@ -350,6 +350,56 @@ def monitor_rotation(ctx, prop="C06"):
     return hits, n
 
 
+def monitor_shared_headers(ctx, prop="C06"):
+    """one long-lived encoder per format sends the same message again and again while exactly ONE of priority, source and destination
+    changes from one send to the next (so whatever the encoder remembers under a key that lacks that attribute shows); each send's packets go
+    to a fresh decoder: PGN, addressing and priority must be the ones of THIS send"""
+    harness.load_repo()
+    from nmea2000.encoder import NMEA2000Encoder
+    msgs, rnd = decoded_messages(ctx, 1, 76)
+    pool = []
+    for want_type, want_pdu1 in (("Single", True), ("Single", False), ("Fast", True), ("Fast", False)):
+        c = [x for x in msgs if x[1]["Type"] == want_type and (((x[1]["PGN"] >> 8) & 0xFF) < 240) == want_pdu1]
+        pool += rnd.sample(c, min(3, len(c)))
+    hits, n = [], 0
+    for fmt in ("ebyte", "usb", "yd", "actisense"):
+        e = NMEA2000Encoder()
+        enc = {"ebyte": e.encode_ebyte, "usb": e.encode_usb, "yd": e.encode_yacht_devices, "actisense": e.encode_actisense}[fmt]
+        for sfx, p, m in pool:
+            pdu1 = (p["PGN"] >> 8) & 0xFF < 240
+            hdr = [2, 11, 35 if pdu1 else 255]
+            steps = [(0, 6), (1, 12), (0, 3), (1, 11)] + ([(2, 36), (0, 7), (2, 255), (2, 35)] if pdu1 else [(0, 0), (1, 0)])
+            sent = []
+            for which, val in [(None, None)] + steps:
+                if which is not None:
+                    hdr[which] = val
+                mm = copy.deepcopy(m)
+                mm.priority, mm.source, mm.destination = hdr
+                n += 1
+                try:
+                    pk = enc(mm)
+                except Exception:
+                    break                                   # not encodable: nothing to carry
+                pk = pk if isinstance(pk, list) else [pk]
+                outs = _via_decoder(fmt, pk)
+                r = outs[-1] if outs else None
+                sent.append(tuple(hdr))
+                if r is None or isinstance(r, tuple) or (r.PGN, r.priority, r.source, r.destination) != (mm.PGN, hdr[0], hdr[1], hdr[2]):
+                    got = None if r is None or isinstance(r, tuple) else (r.PGN, r.priority, r.source, r.destination)
+                    hits.append({"key": f"{prop}/shared-encoder-header/{fmt}", "what": f"{fmt}: one encoder sends {sfx} with (priority, source, destination) = {sent[-3:]} one after the other; "
+                                 f"the last one arrives as (PGN, priority, source, destination) = {got if got else r}, sent {(mm.PGN,) + tuple(hdr)}",
+                                 "replay": {"kind": "shared-headers", "format": fmt, "def": sfx}})
+                    break
+            if hits and hits[-1]["replay"]["format"] == fmt:
+                break
+    return hits, n
+
+
+def replay_shared_headers(rp):
+    hits, n = monitor_shared_headers({"repo": common.REPO, "seed": rp.get("seed", 0), "tier": rp.get("tier", "quick")}, rp.get("property", "C06"))
+    return not hits, (hits[0]["what"] if hits else f"{n} sends through long-lived encoders all arrived with their own header")
+
+
 def replay_rotation(rp):
     hits, n = monitor_rotation({"repo": common.REPO, "seed": rp.get("seed", 0), "tier": rp.get("tier", "quick")}, rp.get("property", "C06"))
     return not hits, (hits[0]["what"] if hits else f"{n} messages in rotation all came back")
